@@ -88,45 +88,11 @@ def stem (n : Name) : Name := n.take (n.length - 1)
 /-- `prefix == name[: len(prefix)]`  (has_traits.py:3154) -/
 def prefixMatches (p n : Name) : Bool := p == n.take p.length
 
-/-- What the translator `harness/translate/prefix.py` must find in the source
-for the two functions below to be the model of it (theorem
-`C13_sort_is_modelled`). -/
-structure SourceFacts where
-  sortKey : String              -- prefix_list.sort(key=…)
-  sortReverse : Bool            --                  reverse=…
-  sortCount : Nat               -- ordering calls that touch prefix_list
-  listStoredAs : String         -- prefix_traits["*"] = …
-  wildcardTest : String         -- declaration is an exact class trait iff …
-  wildcardStem : String         -- … else it is a wildcard for …
-  defaultPrefixTest : String    -- '' is appended iff …
-  mergeTest : String            -- a base's prefix is taken iff …
-  listAlias : String            -- __prefix_trait__: prefix_traits = …
-  loopCount : Nat
-  matchIterates : String        -- for prefix in …
-  matchVar : String
-  matchLhs : String             -- if <lhs> <op> <rhs>:
-  matchOp : String
-  matchRhs : String
-  matchThen : String            --     trait = …
-  matchReturnsInLoop : Bool     --     return trait   (first match wins)
-  dunderTest : String
-  underscoreTest : String
-  deriving DecidableEq, Repr
-
-/-- The source facts `sortPrefixes` (`insertDesc`), `firstMatch`
-(`prefixMatches`), `isDunder`, `endsUnderscore`, `stem`, `ensureDefault` and
-`mergePrefixes` below were transcribed from. -/
-def modelFacts : SourceFacts :=
-  { sortKey := "len", sortReverse := true, sortCount := 1, listStoredAs := "prefix_list"
-    wildcardTest := "name[-1:] != '_'", wildcardStem := "name[:-1]"
-    defaultPrefixTest := "prefix_traits.get('') is None"
-    mergeTest := "name not in prefix_list => prefix_list.append(name); prefix_traits[name] = base_prefix_traits[name]"
-    listAlias := "self.__prefix_traits__", loopCount := 1
-    matchIterates := "prefix_traits['*']", matchVar := "prefix"
-    matchLhs := "prefix", matchOp := "Eq", matchRhs := "name[:len(prefix)]"
-    matchThen := "prefix_traits[prefix]", matchReturnsInLoop := true
-    dunderTest := "name[:2] == '__' and name[-2:] == '__'"
-    underscoreTest := "name[-1:] == '_'" }
+/-! The tie of the functions of this file to the source text is
+`Props/C13.lean`: `C13_prefix_table_is_source` (the table construction below,
+translator `harness/translate/prefixtable.py`) and the `C13_…_is_source`
+theorems (lookup, cache, policies, `add_trait` / `remove_trait`; translators
+`resolve_c.py` / `resolve_py.py`, interpreter `Model/ResL.lean`). -/
 
 /-! ### Classes: `update_traits_class_dict` -/
 
